@@ -61,7 +61,8 @@ type Term struct {
 	a    [3]*Term
 	n    int
 	id   int
-	hi   uint64 // high 64 bits for constants wider than 64 (only 0 supported otherwise)
+	rlo  uint64 // unsigned value range [rlo, rhi] (w <= 64)
+	rhi  uint64
 }
 
 type termKey struct {
@@ -110,8 +111,198 @@ func (b *TB) mk(t Term) *Term {
 	b.next++
 	t.id = b.next
 	p := &t
+	p.rlo, p.rhi = rangeOf(p)
 	b.tab[k] = p
 	return p
+}
+
+func bitlen(v uint64) int {
+	n := 0
+	for v != 0 {
+		n++
+		v >>= 1
+	}
+	return n
+}
+
+// rangeOf computes a sound unsigned interval for the value of t (as a w-bit number).
+func rangeOf(t *Term) (uint64, uint64) {
+	w := t.w
+	if w == 0 {
+		if t.op == OConst {
+			return t.k, t.k
+		}
+		return 0, 1
+	}
+	if w > 64 {
+		return 0, ^uint64(0)
+	}
+	m := mask(w)
+	full := func() (uint64, uint64) { return 0, m }
+	a := func(i int) (uint64, uint64) { return t.a[i].rlo, t.a[i].rhi }
+	nonneg := func(i int) bool { return t.a[i].w <= 64 && t.a[i].rhi < uint64(1)<<uint(t.a[i].w-1) }
+	switch t.op {
+	case OConst:
+		return t.k, t.k
+	case OVar:
+		return full()
+	case OSelect:
+		return 0, 255
+	case OZext:
+		if t.a[0].w > 64 {
+			return full()
+		}
+		return a(0)
+	case OSext:
+		if nonneg(0) {
+			return a(0)
+		}
+		return full()
+	case OExtract:
+		if t.a[0].w <= 64 && t.k == 0 && t.a[0].rhi <= m {
+			return a(0)
+		}
+		return full()
+	case OConcat:
+		if t.a[0].w > 64 || t.a[1].w > 64 {
+			return full()
+		}
+		lw := uint(t.a[1].w)
+		return t.a[0].rlo<<lw + t.a[1].rlo, t.a[0].rhi<<lw + t.a[1].rhi
+	case OAdd:
+		l0, h0 := a(0)
+		l1, h1 := a(1)
+		if h0+h1 >= h0 && h0+h1 <= m {
+			return l0 + l1, h0 + h1
+		}
+		if t.a[1].isConst() && w > 1 && t.a[1].k >= uint64(1)<<uint(w-1) {
+			c := (m - t.a[1].k) + 1 // subtracting c
+			if l0 >= c {
+				return l0 - c, h0 - c
+			}
+		}
+		return full()
+	case OSub:
+		l0, h0 := a(0)
+		l1, h1 := a(1)
+		if l0 >= h1 {
+			return l0 - h1, h0 - l1
+		}
+		return full()
+	case OMul:
+		l0, h0 := a(0)
+		l1, h1 := a(1)
+		if h1 == 0 || h0 <= m/h1 {
+			return l0 * l1, h0 * h1
+		}
+		return full()
+	case OShl:
+		if t.a[1].isConst() && t.a[1].k < uint64(w) {
+			c := uint(t.a[1].k)
+			l0, h0 := a(0)
+			if h0 <= m>>c {
+				return l0 << c, h0 << c
+			}
+		}
+		return full()
+	case OLshr:
+		if t.a[1].isConst() {
+			if t.a[1].k >= uint64(w) {
+				return 0, 0
+			}
+			c := uint(t.a[1].k)
+			return t.a[0].rlo >> c, t.a[0].rhi >> c
+		}
+		return 0, t.a[0].rhi
+	case OAshr:
+		if nonneg(0) {
+			if t.a[1].isConst() {
+				c := t.a[1].k
+				if c >= uint64(w) {
+					return 0, 0
+				}
+				return t.a[0].rlo >> c, t.a[0].rhi >> c
+			}
+			return 0, t.a[0].rhi
+		}
+		return full()
+	case OAnd:
+		_, h0 := a(0)
+		_, h1 := a(1)
+		h := h0
+		if h1 < h {
+			h = h1
+		}
+		if t.a[1].isConst() {
+			k := t.a[1].k
+			if inv := (^k) & m; inv&(inv+1) == 0 { // k clears only low bits
+				return t.a[0].rlo & k, t.a[0].rhi & k
+			}
+		}
+		return 0, h
+	case OOr, OXor:
+		l0, h0 := a(0)
+		l1, h1 := a(1)
+		h := h0
+		if h1 > h {
+			h = h1
+		}
+		bl := bitlen(h)
+		var hb uint64 = m
+		if bl < 64 {
+			hb = (uint64(1) << uint(bl)) - 1
+		}
+		if hb > m {
+			hb = m
+		}
+		if t.op == OOr {
+			l := l0
+			if l1 > l {
+				l = l1
+			}
+			return l, hb
+		}
+		return 0, hb
+	case OIte:
+		l1, h1 := a(1)
+		l2, h2 := a(2)
+		if l2 < l1 {
+			l1 = l2
+		}
+		if h2 > h1 {
+			h1 = h2
+		}
+		return l1, h1
+	case OUdiv:
+		if t.a[1].isConst() && t.a[1].k != 0 {
+			return t.a[0].rlo / t.a[1].k, t.a[0].rhi / t.a[1].k
+		}
+		return full()
+	case OUrem:
+		if t.a[1].isConst() && t.a[1].k != 0 {
+			h := t.a[0].rhi
+			if t.a[1].k-1 < h {
+				h = t.a[1].k - 1
+			}
+			return 0, h
+		}
+		return full()
+	case OSdiv:
+		if nonneg(0) && t.a[1].isConst() && nonneg(1) && t.a[1].k != 0 {
+			return t.a[0].rlo / t.a[1].k, t.a[0].rhi / t.a[1].k
+		}
+		return full()
+	case OSrem:
+		if nonneg(0) && t.a[1].isConst() && nonneg(1) && t.a[1].k != 0 {
+			h := t.a[0].rhi
+			if t.a[1].k-1 < h {
+				h = t.a[1].k - 1
+			}
+			return 0, h
+		}
+		return full()
+	}
+	return full()
 }
 
 func (b *TB) K(w int, v uint64) *Term {
@@ -181,6 +372,17 @@ func (b *TB) un(op Op, x *Term) *Term {
 		return x.a[0]
 	}
 	return b.mk(Term{op: op, w: x.w, a: [3]*Term{x}, n: 1})
+}
+
+// splitConst views t as base + k (base nil when t is a constant).
+func splitConst(t *Term) (*Term, uint64) {
+	if t.isConst() {
+		return nil, t.k
+	}
+	if t.op == OAdd && t.a[1].isConst() {
+		return t.a[0], t.a[1].k
+	}
+	return t, 0
 }
 
 func log2(v uint64) int {
@@ -270,6 +472,9 @@ func (b *TB) Bin(op Op, x, y *Term) *Term {
 			if c == mask(w) {
 				return x
 			}
+			if c&(c+1) == 0 && x.rhi <= c { // low mask covering the whole range of x
+				return x
+			}
 		case OMul:
 			if c == 0 {
 				return y
@@ -324,6 +529,40 @@ func (b *TB) Bin(op Op, x, y *Term) *Term {
 			return x
 		}
 	}
+	if op == OSub {
+		// (base + k1) - (base + k2) = k1 - k2 ; (p + q) - p = q
+		xb, xk := splitConst(x)
+		yb, yk := splitConst(y)
+		if xb == yb {
+			return b.K(w, xk-yk)
+		}
+		if xb != nil && xb.op == OAdd && !xb.a[1].isConst() {
+			if xb.a[0] == yb {
+				return b.Bin(OAdd, xb.a[1], b.K(w, xk-yk))
+			}
+			if xb.a[1] == yb {
+				return b.Bin(OAdd, xb.a[0], b.K(w, xk-yk))
+			}
+		}
+		if yb != nil && yb.op == OAdd && !yb.a[1].isConst() && xb != nil {
+			if yb.a[0] == xb {
+				return b.Bin(OAdd, b.un(ONeg, yb.a[1]), b.K(w, xk-yk))
+			}
+			if yb.a[1] == xb {
+				return b.Bin(OAdd, b.un(ONeg, yb.a[0]), b.K(w, xk-yk))
+			}
+		}
+		// x - (y' - z) etc. are left alone
+	}
+	if op == OAdd && !y.isConst() {
+		// (p - q) + q = p
+		if x.op == OSub && x.a[1] == y {
+			return x.a[0]
+		}
+		if y.op == OSub && y.a[1] == x {
+			return y.a[0]
+		}
+	}
 	// ite lifting over constants: (ite c k1 k2) op k
 	if y.isConst() && x.op == OIte && x.a[1].isConst() && x.a[2].isConst() {
 		return b.Ite(x.a[0], b.Bin(op, x.a[1], y), b.Bin(op, x.a[2], y))
@@ -357,6 +596,46 @@ func (b *TB) Cmp(op Op, x, y *Term) *Term {
 			return b.True()
 		case OUlt, OSlt:
 			return b.False()
+		}
+	}
+	if w > 0 && w <= 64 {
+		sameSign := func() bool {
+			h := uint64(1) << uint(w-1)
+			return (x.rhi < h && y.rhi < h) || (x.rlo >= h && y.rlo >= h)
+		}
+		switch op {
+		case OEq:
+			if x.rhi < y.rlo || y.rhi < x.rlo {
+				return b.False()
+			}
+			// base + k1 == base + k2
+			xb, xk := splitConst(x)
+			yb, yk := splitConst(y)
+			if xb != nil && xb == yb {
+				return b.Bool(xk == yk)
+			}
+		case OUlt:
+			if x.rhi < y.rlo {
+				return b.True()
+			}
+			if x.rlo >= y.rhi {
+				return b.False()
+			}
+		case OUle:
+			if x.rhi <= y.rlo {
+				return b.True()
+			}
+			if x.rlo > y.rhi {
+				return b.False()
+			}
+		case OSlt:
+			if sameSign() {
+				return b.Cmp(OUlt, x, y)
+			}
+		case OSle:
+			if sameSign() {
+				return b.Cmp(OUle, x, y)
+			}
 		}
 	}
 	if op == OEq {
@@ -576,6 +855,16 @@ func (b *TB) Conv(x *Term, w int, signed bool) *Term {
 	if x.op == OIte && x.a[1].isConst() && x.a[2].isConst() {
 		return b.Ite(x.a[0], b.Conv(x.a[1], w, signed), b.Conv(x.a[2], w, signed))
 	}
+	// widening a truncation of a value that fits: int(uint32(v)) == v
+	if x.op == OExtract && x.k == 0 && x.a[0].w == w && w <= 64 {
+		in := x.a[0]
+		if (!signed && in.rhi <= mask(x.w)) || (signed && x.w > 1 && in.rhi < uint64(1)<<uint(x.w-1)) {
+			return in
+		}
+	}
+	if signed && x.w <= 64 && x.w > 1 && x.rhi < uint64(1)<<uint(x.w-1) {
+		signed = false // provably non-negative: zero-extend (canonical form)
+	}
 	if !signed && x.op == OZext {
 		return b.Conv(x.a[0], w, false)
 	}
@@ -638,14 +927,18 @@ type Script struct {
 	sb    strings.Builder
 	names map[*Term]string
 	tb    *TB
+	used  map[string]bool // variables referenced so far
 }
 
 func (b *TB) NewScript() *Script {
-	return &Script{names: map[*Term]string{}, tb: b}
+	return &Script{names: map[*Term]string{}, tb: b, used: map[string]bool{}}
 }
 
 func (s *Script) ref(t *Term) string {
 	if l := t.leaf(); l != "" {
+		if t.op == OVar {
+			s.used[t.name] = true
+		}
 		return l
 	}
 	if n, ok := s.names[t]; ok {
@@ -662,6 +955,9 @@ func (s *Script) ref(t *Term) string {
 		if f.i < f.t.n {
 			c := f.t.a[f.i]
 			f.i++
+			if c.op == OVar {
+				s.used[c.name] = true
+			}
 			if c.leaf() == "" {
 				if _, ok := s.names[c]; !ok {
 					st = append(st, fr{c, 0})
